@@ -6,7 +6,9 @@
 mod common;
 mod gen;
 mod sup;
+mod c06;
 mod c07;
+mod uref;
 mod c08;
 mod c11;
 mod ind;
@@ -44,6 +46,7 @@ fn main() {
         _ => Tier::Quick,
     };
     let checks: Vec<(&str, fn(&Ctx) -> i32)> = vec![
+        ("C06", c06::run),
         ("C07", c07::run),
         ("C08", c08::run08),
         ("C09", c08::run09),
